@@ -26,6 +26,8 @@ type Case struct {
 	Engine   string   `json:"engine"`
 	Work     []uint32 `json:"work"`
 	Sched    []uint32 `json:"sched"`
+	// Pol: the auxiliary tape of the schedule stream (scheduling policy, priorities)
+	Pol []uint32 `json:"pol,omitempty"`
 	Seed     uint64   `json:"seed,omitempty"`
 	Index    int      `json:"index,omitempty"`
 }
@@ -232,7 +234,7 @@ func (o *castObj) Cast(r *model3d.Ray) (model3d.RayCollision, render3d.Material,
 
 func RunCase(t *testing.T, c *Case, work, sched *choice.Source, st *Stats) (fs []Finding) {
 	defer func() {
-		c.Work, c.Sched = work.Tape(), sched.Tape()
+		c.Work, c.Sched, c.Pol = work.Tape(), sched.Tape(), sched.AuxTape()
 		runtime.GOMAXPROCS(16)
 	}()
 	w, h := 2+work.Intn(11), 2+work.Intn(11)
@@ -358,7 +360,7 @@ func RunCase(t *testing.T, c *Case, work, sched *choice.Source, st *Stats) (fs [
 	if huge {
 		knobs["hook.stride"], knobs["auto.stride"] = 64, 64
 	}
-	res := simsched.Run(t, simsched.Config{Src: sched, Sticky: sticky, Knobs: knobs}, func() {
+	res := simsched.Run(t, simsched.Config{Src: sched, Sticky: sticky, Knobs: knobs, Policy: simsched.DrawPolicy(sched)}, func() {
 		switch renderer {
 		case 0, 1:
 			(&render3d.RecursiveRayTracer{Camera: cam, MaxDepth: 0, NumSamples: numSamples, MinSamples: minSamples, MaxStddev: maxStddev,
